@@ -209,13 +209,13 @@ pub fn run(g: &mut Global) {
         &check,
     );
     g.random("random", g.tier.pick(20_000, 5_000_000), &random_strategy, &check);
-    // long chains of setter calls (up to 120 per build): "last value wins" must not depend on how many
+    // long chains of setter calls (up to 600 per build): "last value wins" must not depend on how many
     // calls were made; one field is left out in a third of the chains
     g.random(
         "long_chains",
         g.tier.pick(20_000, 400_000),
         &|| {
-            (vec((0u8..5, prop_oneof![3 => -50.0f64..150.0, 1 => (0usize..11).prop_map(|i| LATTICE[i])]), 20..=120), 0u8..15)
+            (prop_oneof![3 => vec((0u8..5, prop_oneof![3 => -50.0f64..150.0, 1 => (0usize..11).prop_map(|i| LATTICE[i])]), 20..=120), 1 => vec((0u8..5, prop_oneof![3 => -50.0f64..150.0, 1 => (0usize..11).prop_map(|i| LATTICE[i])]), 250..=600)], 0u8..15)
                 .prop_map(|(cs, skip)| Case { calls: cs.into_iter().filter(|(i, _)| *i != skip).map(|(i, x)| (i, X(x))).collect() })
                 .boxed()
         },
